@@ -72,6 +72,9 @@ def tyThen (r : List String) : Option (Ty × List String) :=
 def step (line : String) : String :=
   let toks := (line.trimAscii.toString.splitOn " ").filter (· ≠ "")
   match toks with
+  | ["consts"] =>
+    s!"MAGIC_HEADER={MAGH} MAGIC_FOOTER={MAGF} FOOTER_OFFSET={FOOT} field={T_FIELD} array={T_ARRAY} constant={T_CONST} identity={T_IDENT} " ++
+    s!"affine={T_AFFINE} backup={T_BACKUP} clamp={T_CLAMP} hilbert={T_HILBERT} morton={T_MORTON} strided={T_STRIDED}"
   | "dump" :: r =>
     match tyThen r with
     | some (ty, r2) => match pDat r2 with
